@@ -349,8 +349,29 @@ def sections(ctx: Any) -> List[Ob]:
     ok_hm = isinstance(e, ast.BoolOp) and isinstance(e.op, ast.Or)
     if ok_hm:
         for v in e.values:
-            if isinstance(v, ast.Compare) and isinstance(v.ops[0], ast.Lt) and isinstance(v.comparators[0], ast.Call) and norm(v.comparators[0].func) == 'len':
-                pairs.add((norm(v.left), self_attr(v.comparators[0].args[0], hm.params[0])))
+            found = None
+            if isinstance(v, ast.Compare) and len(v.ops) == 1:
+                seen_len: Dict[str, str] = {}
+
+                def sym(x: ast.AST) -> Optional[str]:
+                    if isinstance(x, ast.Call) and norm(x.func) == 'len' and len(x.args) == 1:
+                        a = self_attr(x.args[0], hm.params[0])
+                        if a:
+                            seen_len['l'] = a
+                            return 'LEN'
+                    if isinstance(x, ast.Name):
+                        seen_len['o'] = x.id
+                        return 'OFF'
+                    return None
+
+                try:
+                    pp, op_ = lf.comparison(prog, hm.module, v, sym)
+                    if lf.same_cmp((pp, op_), lf.parse_cmp('OFF - LEN < 0')) and 'l' in seen_len and 'o' in seen_len:
+                        found = (seen_len['o'], seen_len['l'])
+                except lf.NotLinear:
+                    pass
+            if found:
+                pairs.add(found)
             else:
                 ok_hm = False
     call = [c for c in body if isinstance(c, ast.Call) and call_name(c) == '_has_more_to_add']
